@@ -187,12 +187,29 @@ def _inner_attr_edits(sf: SourceFile, lo_tok: int, hi_tok: int) -> List[Tuple[in
     return edits
 
 
-def _find_nth(hay: str, needle: str, nth, what: str) -> List[int]:
-    idxs = []
-    p = hay.find(needle)
-    while p >= 0:
-        idxs.append(p)
-        p = hay.find(needle, p + 1)
+def _anchor_regex(needle: str):
+    """Anchors are matched on the token sequence, not the layout: rustfmt re-wrapping a call chain must not lose them."""
+    parts = re.findall(r'\w+|\s+|[^\w\s]', needle)
+    out = []
+    prev_word = False
+    pending_ws = False
+    for t in parts:
+        if t.isspace():
+            pending_ws = True
+            continue
+        is_word = bool(re.match(r'\w', t))
+        if out:
+            out.append(r'\s+' if (pending_ws and prev_word and is_word) else r'\s*')
+        out.append(re.escape(t))
+        prev_word = is_word
+        pending_ws = False
+    lead = needle[:len(needle) - len(needle.lstrip())]
+    trail = needle[len(needle.rstrip()):]
+    return re.compile(re.escape(lead) + ''.join(out) + re.escape(trail))
+
+
+def _find_nth(hay: str, needle: str, nth, what: str) -> List[Tuple[int, int]]:
+    idxs = [(m.start(), m.end()) for m in _anchor_regex(needle).finditer(hay)]
     if not idxs:
         raise LostAnchor('%s: anchor %r not found' % (what, needle))
     if nth == 'all':
@@ -596,12 +613,12 @@ def extract_fn(unit: str, file: str, item: str, mode: str, contracts, canary: bo
                     edits.append((p, p, txt, org))
             else:
                 needle, nth = ins.arg
-                for p in _find_nth(raw_body, needle, nth, fn_label):
-                    a = body_open.start + p + (len(needle) if ins.where == 'after' else 0)
+                for (p, pe) in _find_nth(raw_body, needle, nth, fn_label):
+                    a = body_open.start + (pe if ins.where == 'after' else p)
                     edits.append((a, a, txt, org))
         for rp in c.replaces:
             whole = sf.text[it.start:it.end]
-            for p in _find_nth(whole, rp.old, rp.nth, fn_label):
+            for (p, pe) in _find_nth(whole, rp.old, rp.nth, fn_label):
                 a = it.start + p
                 org_r = rw(rp.rule)
                 n_as = len(re.findall(r'\bassert\s*\(', rp.new))
@@ -610,7 +627,7 @@ def extract_fn(unit: str, file: str, item: str, mode: str, contracts, canary: bo
                     org_r = {'kind': 'insert', 'fn': fn_label, 'vc': '%s:%d' % (c.vc_file, rp.vc_line), 'tags': c.serves, 'rule': rp.rule}
                     info.n_asserts += n_as
                     info.proof_blocks.append(('%s:%d' % (c.vc_file, rp.vc_line), n_as))
-                edits.append((a, a + len(rp.old), rp.new, org_r))
+                edits.append((a, it.start + pe, rp.new, org_r))
                 info.rewrites.append('%s:%r' % (rp.rule, rp.old[:30]))
 
     if body_start_ins:
